@@ -101,6 +101,19 @@ struct Arch {
     steer: Vec<u64>,
     leaf_section: (u64, u64),
     has_leaves: bool,
+    /// the tile data section (stored last) is cut off right behind its first bytes: opens stay possible, lookups do not
+    truncated: bool,
+}
+
+/// Cut the archive off a few bytes into its tile data section if that section is stored last.
+fn truncate_tile_data(bytes: &mut Vec<u8>) -> bool {
+    let Ok(h) = R::header_unpack(bytes) else { return false };
+    let others = [h.root_offset + h.root_length, h.meta_offset + h.meta_length, h.leaf_offset + h.leaf_length, 127];
+    if h.data_length < 8 || others.iter().any(|e| *e > h.data_offset) || h.data_offset as usize >= bytes.len() {
+        return false;
+    }
+    bytes.truncate(h.data_offset as usize + 3);
+    true
 }
 
 fn steer_points(bytes: &[u8], rng: &mut Rng) -> (Vec<u64>, (u64, u64), bool) {
@@ -124,6 +137,15 @@ fn steer_points(bytes: &[u8], rng: &mut Rng) -> (Vec<u64>, (u64, u64), bool) {
         for e in w.entries.iter().step_by(step) {
             let end = e.tile_id + u64::from(e.run_length);
             s.extend([e.tile_id.saturating_sub(1), e.tile_id, e.tile_id + 1, end - 1, end, end + 1]);
+        }
+        // bounds whose distance to an entry is k*2^32 + d with d inside the run (narrowing casts alias them onto the run)
+        for e in w.entries.iter().step_by((w.entries.len() / 6).max(1)) {
+            let last = u64::from(e.run_length.saturating_sub(1));
+            for k in [1u64, 2, 1 << 20] {
+                s.push(e.tile_id.saturating_add(k << 32));
+                s.push(e.tile_id.saturating_add(k << 32).saturating_add(last));
+                s.push(e.tile_id.saturating_add(k << 32).saturating_add(last / 2));
+            }
         }
         if let Some(e) = w.entries.last() {
             let end = e.tile_id + u64::from(e.run_length);
@@ -157,14 +179,16 @@ fn archives(ctx: &Ctx, i: u64) -> Arch {
             o.depth = rng.range(4, 7) as u32;
             o.n_entries = rng.usize(40, 400);
         }
-        let f = gen::gen_foreign(&mut rng, &o);
+        let mut f = gen::gen_foreign(&mut rng, &o);
         let (steer, leaf_section, has_leaves) = steer_points(&f.bytes, &mut rng);
+        let truncated = i % 8 == 6 && truncate_tile_data(&mut f.bytes);
         Arch {
-            label: format!("foreign {} entries={} leaves={}", f.layout, f.entries.len(), f.n_leaves),
+            label: format!("foreign {} entries={} leaves={}{}", f.layout, f.entries.len(), f.n_leaves, if truncated { " (tile data cut off)" } else { "" }),
             bytes: f.bytes,
             steer,
             leaf_section,
             has_leaves,
+            truncated,
         }
     } else {
         let class = match i % 20 {
@@ -178,14 +202,16 @@ fn archives(ctx: &Ctx, i: u64) -> Arch {
         if l.meta.len() > 8 || serde_json::to_string(&l.meta).map_or(0, |s| s.len()) > 4096 {
             l.meta = gen::json_object(&mut rng, 3, 5);
         }
-        let bytes = write_sync(l.build()).expect("write");
+        let mut bytes = write_sync(l.build()).expect("write");
         let (steer, leaf_section, has_leaves) = steer_points(&bytes, &mut rng);
+        let truncated = i % 8 == 7 && truncate_tile_data(&mut bytes);
         Arch {
-            label: format!("library-written {} codec={}", l.class, R::codec_name(codec)),
+            label: format!("library-written {} codec={}{}", l.class, R::codec_name(codec), if truncated { " (tile data cut off)" } else { "" }),
             bytes,
             steer,
             leaf_section,
             has_leaves,
+            truncated,
         }
     }
 }
@@ -268,6 +294,12 @@ pub fn run(ctx: &mut Ctx) {
         let full = guard(|| PMTiles::from_bytes(a.bytes.clone()));
         let mut full = match full {
             Ok(Ok(f)) => f,
+            Ok(Err(_)) if a.truncated => {
+                // a reader may legitimately insist on the tile data being there; then there is nothing to compare
+                ctx.count("cut_off_archives_refused_by_the_full_open");
+                ctx.end(i);
+                continue;
+            }
             Ok(Err(e)) => {
                 ctx.inconclusive(&format!("full open of a generated archive failed ({}): {e}", a.label));
                 ctx.end(i);
@@ -283,7 +315,10 @@ pub fn run(ctx: &mut Ctx) {
         full_ids.sort_unstable();
         let mut cache: std::collections::HashMap<u64, u64> = std::collections::HashMap::new();
         let step = (full_ids.len() / 60).max(1);
-        for id in full_ids.iter().step_by(step) {
+        if a.truncated {
+            ctx.count("archives_with_tile_data_cut_off");
+        }
+        for id in full_ids.iter().step_by(step).filter(|_| !a.truncated) {
             let b = full.get_tile_by_id(*id).ok().flatten().unwrap_or_default();
             cache.insert(*id, crate::rng::hash_bytes(&b));
         }
